@@ -159,7 +159,12 @@ class WriterNumbers:
             elif isinstance(st, ast.If):
                 t = norm(st.test)
                 if "is_legacy" in t:
-                    # frozen: legacy replay branch (C06); the else part is what follows the early return
+                    # frozen: legacy replay branch (C06); what is written otherwise is the else part / what follows the early return
+                    tt, neg = st.test, False
+                    while isinstance(tt, ast.UnaryOp) and isinstance(tt.op, ast.Not):
+                        tt, neg = tt.operand, not neg
+                    if norm(tt) == "self.is_legacy":
+                        self.block(st.body if neg else st.orelse, fn, owner, env, guard, lists)
                     continue
                 self.block(st.body, fn, owner, env, (guard + " and " if guard else "") + t, lists)
                 self.block(st.orelse, fn, owner, env, (guard + " and " if guard else "") + f"not ({t})", lists)
